@@ -23,8 +23,8 @@ import (
 // handoff), which also makes the recorded events race-free and the run deterministic. The mirror of the filter only
 // schedules the workload; if it is wrong the run is reported as inconclusive (a pop the model did not expect is counted
 // in Cluster.QueueMismatch, a predicted pop that never comes trips a generous watchdog: Cluster.QueueStuck).
-// QueueWatchdog bounds the wait for a pop the driver predicted (queue mode); firing sets Cluster.QueueStuck.
-var QueueWatchdog = 180 * time.Second
+// QueueWatchdog: a pop the driver predicted (queue mode) that takes longer sets Cluster.QueueSlow, one that has not happened after five times as long sets Cluster.QueueStuck.
+var QueueWatchdog = 40 * time.Second
 
 type queueState struct {
 	mu        sync.Mutex
@@ -173,10 +173,16 @@ func (c *Cluster) pushQueue(op *Operator, a *Action, dec *queue.DecodedSSVMessag
 	if !adm {
 		a.Desc += " [left in the queue: not admitted by the pop filter now]"
 	}
+	// a predicted pop that takes longer than QueueWatchdog marks the run slow (callers treat that as inconclusive); only one
+	// that has not happened after five times that long counts as not happening
+	soft, hard := time.After(QueueWatchdog), time.After(5*QueueWatchdog)
 	for adm {
 		select {
 		case adm = <-q.done:
-		case <-time.After(QueueWatchdog):
+		case <-soft:
+			c.QueueSlow = true
+			soft = nil
+		case <-hard:
 			c.QueueStuck = true
 			return fmt.Errorf("driver: watchdog: predicted pop did not happen")
 		}
